@@ -16,6 +16,8 @@
     resumes exactly once, after a releasing signal issued after its wait began
     and never before; NRT (deterministic) and RT under random-yield injection
     with releases also coming from a plain thread.
+(d) Fault sequences: a release that raises half way (a waiter's TempoClock was
+    stopped) followed by retries: no waiter is resumed twice for one wait.
 """
 
 import json
@@ -42,10 +44,12 @@ ASSUMPTIONS = [
 MIN_COUNTERS = {
     'quick': {'fsm_ops_compared': 20000, 'fsm_inside_ops': 3000,
               'cond_waits_hung_checked': 300, 'ctx_checks': 20000,
-              'mt_histories': 500, 'mt_concurrent_next_calls': 5000},
+              'mt_histories': 500, 'mt_concurrent_next_calls': 5000,
+              'fault_cases': 40, 'fault_release_attempts_that_raised': 20},
     'thorough': {'fsm_ops_compared': 4000000, 'fsm_inside_ops': 500000,
                  'cond_waits_hung_checked': 60000, 'ctx_checks': 4000000,
-                 'mt_histories': 30000, 'mt_concurrent_next_calls': 300000},
+                 'mt_histories': 30000, 'mt_concurrent_next_calls': 300000,
+                 'fault_cases': 2000, 'fault_release_attempts_that_raised': 1000},
 }
 
 
@@ -63,6 +67,9 @@ def plan(tier, seed):
         for p, (f, n) in enumerate(split(1600, 2)):
             shards.append(dict(name=f'mt{p}', mode='nrt', kind='fsm-mt', first_case=f,
                                n=n, secs=30, hard_timeout=160))
+        for p, (f, n) in enumerate(split(80, 2)):
+            shards.append(dict(name=f'cfault{p}', mode='rt', kind='cond-fault',
+                               first_case=f, n=n, secs=40, hard_timeout=160))
     else:
         for p, (f, n) in enumerate(split(2400000, 12)):
             shards.append(dict(name=f'fsm{p}', mode='nrt', kind='fsm', first_case=f,
@@ -73,6 +80,9 @@ def plan(tier, seed):
         for p, (f, n) in enumerate(split(120000, 4)):
             shards.append(dict(name=f'mt{p}', mode='nrt', kind='fsm-mt', first_case=f,
                                n=n, secs=500, hard_timeout=700))
+        for p, (f, n) in enumerate(split(6000, 6)):
+            shards.append(dict(name=f'cfault{p}', mode='rt', kind='cond-fault',
+                               first_case=f, n=n, secs=520, hard_timeout=700))
         for i in range(3):
             shards.append(dict(name=f'crt{i}', mode='rt', kind='cond-rt', secs=120,
                                batch=[20, 40, 60][i], p_yield=[0.0, 0.03, 0.1][i],
@@ -595,7 +605,8 @@ def run_cond_rt(spec, acc):
 # ---------------------------------------------------------------------------
 
 def run_fsm_mt(spec, acc):
-    """2-4 plain threads call next() on one routine concurrently (random yields
+    """2-4 plain threads call next() on one routine - or on 2-3 independent
+    routines at the same time - concurrently (random yields
     injected at the statement boundaries of Routine.next).  Whatever the
     interleaving, the routine must behave as if the calls happened one after
     the other: every value is produced exactly once, in order, the terminal
@@ -616,25 +627,42 @@ def run_fsm_mt(spec, acc):
     try:
         for i in iter_cases(spec):
             rng = case_rng(spec['seed'], 'C11', 'mt', i)
-            n = rng.randint(0, 6)
-            end = rng.choice(['return', 'raise', 'always'])
-            started = [0]
+            # one routine shared by all threads, or 2-3 independent routines
+            # driven at the same time (each still shared by >= 1 thread): a
+            # body must always find itself as the library's current thread
+            nrout = rng.choice([1, 1, 2, 3])
+            nthreads = rng.randint(max(2, nrout), 4)
+            routs = []
+            ctxbad = []
+            for q in range(nrout):
+                n = rng.randint(0, 6)
+                end = rng.choice(['return', 'raise', 'always'])
+                started = [0]
+                cell = []
 
-            def body():
-                started[0] += 1
-                for k in range(n):
-                    yield ('v', k)
-                if end == 'raise':
-                    raise VfErr('vf')
-                if end == 'always':
-                    raise stm.AlwaysYield('T')
-            r = stm.Routine(body)
-            nthreads = rng.randint(2, 4)
-            calls = n + 6
+                def body(n=None, q=q, nn=n, end=end, started=started, cell=cell):
+                    started[0] += 1
+                    for k in range(nn):
+                        if main.current_tt is not cell[0]:
+                            ctxbad.append((q, k, repr(main.current_tt)))
+                        yield ('v', k)
+                    if main.current_tt is not cell[0]:
+                        ctxbad.append((q, 'end', repr(main.current_tt)))
+                    if end == 'raise':
+                        raise VfErr('vf')
+                    if end == 'always':
+                        raise stm.AlwaysYield('T')
+                r = stm.Routine(body)
+                cell.append(r)
+                routs.append(dict(r=r, n=n, end=end, started=started, threads=[]))
+            calls = max(x['n'] for x in routs) + 6
             outs = [[] for _ in range(nthreads)]
             go = threading.Event()
+            for t in range(nthreads):
+                routs[t % nrout]['threads'].append(t)
 
             def worker(t):
+                r = routs[t % nrout]['r']
                 go.wait()
                 for _ in range(calls):
                     try:
@@ -653,69 +681,206 @@ def run_fsm_mt(spec, acc):
             for t in ths:
                 t.join(20)
             acc.count('mt_histories')
+            acc.count('mt_histories_several_routines', int(nrout > 1))
             acc.count('mt_concurrent_next_calls', nthreads * calls)
-            allo = [o for lst in outs for o in lst]
-            vals = [o[1] for o in allo if o[0] == 'ok' and o[1] != 'T']
             bad = None
             if any(t.is_alive() for t in ths):
                 bad = ('next-hangs', 'a thread did not finish')
-            elif sorted(vals, key=repr) != sorted([('v', k) for k in range(n)], key=repr):
-                bad = ('values-not-exactly-once',
-                       f'values seen {sorted(vals, key=repr)} expected v0..v{n - 1}')
-            elif started[0] != 1:
-                bad = ('body-restarted', f'body started {started[0]} times')
-            elif any(o[0] == 'other' for o in allo):
-                bad = ('unexpected-exception', repr([o for o in allo if o[0] == 'other'][:3]))
-            else:
-                for lst in outs:
-                    ks = [o[1][1] for o in lst if o[0] == 'ok' and o[1] != 'T']
-                    if ks != sorted(ks):
-                        bad = ('per-thread-order', repr(lst))
-                        break
-                    # terminal behaviour never followed by a value
-                    seen_end = False
-                    for o in lst:
-                        if o[0] in ('stop', 'err') or o == ('ok', 'T'):
-                            seen_end = True
-                        elif seen_end:
-                            bad = ('value-after-terminal', repr(lst))
+            elif ctxbad:
+                bad = ('body-not-the-current-thread', repr(ctxbad[:3]))
+            for X in ([] if bad else routs):
+                n, end, started, r = X['n'], X['end'], X['started'], X['r']
+                mine = [outs[t] for t in X['threads']]
+                allo = [o for lst in mine for o in lst]
+                vals = [o[1] for o in allo if o[0] == 'ok' and o[1] != 'T']
+                if sorted(vals, key=repr) != sorted([('v', k) for k in range(n)], key=repr):
+                    bad = ('values-not-exactly-once',
+                           f'values seen {sorted(vals, key=repr)} expected v0..v{n - 1}')
+                elif started[0] != 1:
+                    bad = ('body-restarted', f'body started {started[0]} times')
+                elif any(o[0] == 'other' for o in allo):
+                    bad = ('unexpected-exception',
+                           repr([o for o in allo if o[0] == 'other'][:3]))
+                else:
+                    for lst in mine:
+                        ks = [o[1][1] for o in lst if o[0] == 'ok' and o[1] != 'T']
+                        if ks != sorted(ks):
+                            bad = ('per-thread-order', repr(lst))
                             break
-                nerr = sum(1 for o in allo if o[0] == 'err')
-                nT = sum(1 for o in allo if o == ('ok', 'T'))
-                nstop = sum(1 for o in allo if o[0] == 'stop')
-                total = nthreads * calls
-                if not bad:
-                    if end == 'raise' and nerr != 1:
-                        bad = ('failure-not-exactly-once', f'{nerr} calls saw the error')
-                    elif end == 'always' and (nstop or nT != total - n):
-                        bad = ('terminal-value-not-constant',
-                               f'{nT} terminal values, {nstop} StopStream, {total - n} expected')
-                    elif end != 'always' and nT:
-                        bad = ('terminal-value-unexpected', f'{nT}')
-                    elif end != 'always' and nstop + nerr != total - n:
-                        bad = ('stop-count', f'{nstop}+{nerr} != {total - n}')
-            if not bad and r.state.name != 'Done':
-                bad = ('final-state', r.state.name)
+                        # terminal behaviour never followed by a value
+                        seen_end = False
+                        for o in lst:
+                            if o[0] in ('stop', 'err') or o == ('ok', 'T'):
+                                seen_end = True
+                            elif seen_end:
+                                bad = ('value-after-terminal', repr(lst))
+                                break
+                    nerr = sum(1 for o in allo if o[0] == 'err')
+                    nT = sum(1 for o in allo if o == ('ok', 'T'))
+                    nstop = sum(1 for o in allo if o[0] == 'stop')
+                    total = len(mine) * calls
+                    if not bad:
+                        if end == 'raise' and nerr != 1:
+                            bad = ('failure-not-exactly-once', f'{nerr} calls saw the error')
+                        elif end == 'always' and (nstop or nT != total - n):
+                            bad = ('terminal-value-not-constant',
+                                   f'{nT} terminal values, {nstop} StopStream, '
+                                   f'{total - n} expected')
+                        elif end != 'always' and nT:
+                            bad = ('terminal-value-unexpected', f'{nT}')
+                        elif end != 'always' and nstop + nerr != total - n:
+                            bad = ('stop-count', f'{nstop}+{nerr} != {total - n}')
+                if not bad and r.state.name != 'Done':
+                    bad = ('final-state', r.state.name)
+                if bad:
+                    break
             if not bad and main.current_tt is not main.main_tt:
                 bad = ('current-thread-not-restored', repr(main.current_tt))
             if bad:
                 acc.violation(f'C11/concurrent-next/{bad[0]}',
-                              {'case': i, 'n': n, 'end': end, 'threads': nthreads,
+                              {'case': i, 'routines': [(x['n'], x['end'], x['threads'])
+                                                       for x in routs],
+                               'threads': nthreads,
                                'why': bad[1], 'outcomes': [repr(x)[:300] for x in outs]})
                 main.current_tt = main.main_tt
-            acc.case(h64(('mt', n, end, nthreads, i % 50)), nontrivial=n >= 2)
+            n = max(x['n'] for x in routs)
+            acc.case(h64(('mt', [(x['n'], x['end']) for x in routs], nthreads, i % 50)),
+                     nontrivial=n >= 2)
             if acc.want_sample() and n >= 2:
-                acc.sample({'case': i, 'mt': {'n': n, 'end': end, 'threads': nthreads},
+                acc.sample({'case': i, 'mt': {'routines': [(x['n'], x['end']) for x in routs],
+                                              'threads': nthreads},
                             'outcomes_thread0': [repr(x) for x in outs[0][:6]]})
     finally:
         inj.stop()
     acc.count('injected_yields', inj.injected)
 
 
+# ---------------------------------------------------------------------------
+# (d) a release that fails half way (fault sequences)
+# ---------------------------------------------------------------------------
+
+def run_cond_fault(spec, acc):
+    """Several routines, on SystemClock and on TempoClocks, wait on one
+    condition (gate); each one then waits on a second condition whose test
+    never holds and that nobody signals.  Some of the TempoClocks are stopped
+    while their routines wait, so a release of the gate raises ClockNotRunning
+    after part of the waiters were rescheduled.  The caller retries (signal /
+    unhang, from a plain thread or from inside a task).  Whatever the faults: no
+    waiter is resumed twice for one wait - seen as falling through the second
+    wait although its condition never held - and the waiters in front of the
+    failing one are resumed once."""
+    from sc3.base.main import main
+    from sc3.base import clock as clk, stream as stm
+    from sc3.base.functions import Function
+    t_stop = time.time() + spec['shard']['secs']
+    for i in iter_cases(spec):
+        if time.time() > t_stop:
+            break
+        rng = case_rng(spec['seed'], 'C11', 'cfault', i)
+        n = rng.randint(2, 6)
+        flags = {'g': False}
+        gate = stm.Condition(lambda: flags['g'])
+        other = stm.Condition(lambda: False)
+        tcs = [clk.TempoClock(rng.choice([1, 2, 4])) for _ in range(rng.randint(1, 2))]
+        log = []
+
+        def mk(k):
+            def body():
+                log.append(('wbegin', k))
+                yield from gate.wait()
+                log.append(('gate', k))
+                yield from other.wait()
+                log.append(('other', k))
+            return stm.Routine(body)
+        where = [rng.choice([-1] + list(range(len(tcs)))) for _ in range(n)]
+        if all(w == -1 for w in where):
+            where[rng.randrange(1, n)] = 0
+        ok = True
+        for k in range(n):
+            mk(k).play(clk.SystemClock if where[k] < 0 else tcs[where[k]], 0)
+            t0 = time.time()
+            while ('wbegin', k) not in log and time.time() - t0 < 3:
+                time.sleep(0.002)
+            ok = ok and ('wbegin', k) in log
+        if not ok:
+            acc.count('fault_cases_setup_incomplete')
+            for c in tcs:
+                c.stop()
+            continue
+        stopped = [c for c in range(len(tcs)) if rng.random() < 0.7]
+        if not any(where[k] in stopped for k in range(n)):
+            stopped = sorted({w for w in where if w >= 0})[:1]
+        for c in stopped:
+            tcs[c].stop()
+            t0 = time.time()
+            while tcs[c].running() and time.time() - t0 < 3:
+                time.sleep(0.002)
+        attempts = []
+
+        def release(how):
+            flags['g'] = True
+            try:
+                getattr(gate, how)()
+                attempts.append((how, None))
+            except Exception as e:      # noqa
+                attempts.append((how, type(e).__name__))
+        for a in range(rng.randint(2, 4)):
+            how = rng.choice(['signal', 'signal', 'unhang'])
+            if rng.random() < 0.5:
+                release(how)
+            else:
+                def from_task(how):
+                    def f():
+                        release(how)
+                    return Function(f)
+                clk.SystemClock.sched(0, from_task(how))
+            time.sleep(rng.choice([0.01, 0.03]))
+        time.sleep(0.12)
+        with main._main_lock:
+            got = list(log)
+        for c in tcs:
+            try:
+                c.stop()
+            except Exception:
+                pass
+        failed = [a for a in attempts if a[1]]
+        acc.count('fault_cases')
+        acc.count('fault_release_attempts', len(attempts))
+        acc.count('fault_release_attempts_that_raised', len(failed))
+        acc.case(h64(('cfault', where, stopped, [a[0] for a in attempts])),
+                 nontrivial=bool(failed))
+        w = {'case': i, 'waiters_on': where, 'stopped_clocks': stopped,
+             'attempts': attempts, 'log': got}
+        tag = 'after-failed-release' if failed else 'plain'
+        first_bad = min([k for k in range(n) if where[k] in stopped], default=n)
+        for k in range(n):
+            ng = got.count(('gate', k))
+            acc.count('fault_waiters_checked')
+            if ('other', k) in got:
+                acc.violation(f'C11/waiter-resumed-before-condition-holds/{tag}',
+                              dict(w, waiter=k))
+                break
+            if ng > 1:
+                acc.violation(f'C11/waiter-resumed-twice/{tag}', dict(w, waiter=k))
+                break
+            if k < first_bad and ng != 1:
+                acc.violation(f'C11/waiter-never-resumed-after-release/{tag}',
+                              dict(w, waiter=k))
+                break
+            if k > first_bad and where[k] not in stopped and ng == 0:
+                # the unchanged library drops the waiters behind the failing one
+                acc.count('fault_waiters_behind_failure_not_resumed')
+        if main.current_tt is not main.main_tt:
+            acc.violation('C11/current-thread-not-restored/after-failed-release', w)
+            main.current_tt = main.main_tt
+
+
 def run_shard(spec, acc):
     kind = spec['shard']['kind']
     if kind == 'fsm-mt':
         return run_fsm_mt(spec, acc)
+    if kind == 'cond-fault':
+        return run_cond_fault(spec, acc)
     if kind == 'fsm':
         run_fsm(spec, acc)
     elif kind == 'cond-nrt':
